@@ -588,7 +588,7 @@ func main() {
 	vh.Emit(cfg, "raw", header, footer, rawOut, m())
 	n := 150
 	if cfg.Thorough() {
-		n = 2500
+		n = 1200
 	}
 	var mg []Case
 	for i := 0; i < n; i++ {
